@@ -392,7 +392,7 @@ const prelude = `(declare-datatypes ((Slice 0)) (((mkslice (sl.base Int) (sl.off
 (declare-fun fa (Int Int) Int)
 (declare-fun fa.obj (Int) Int)
 (declare-fun fa.fld (Int) Int)
-(declare-fun typeof (Int) Int)
+` + preludeFaAxiom + `(declare-fun typeof (Int) Int)
 (declare-fun band (Int Int) Int)
 (declare-fun bor (Int Int) Int)
 (declare-fun bxor (Int Int) Int)
@@ -400,6 +400,8 @@ const prelude = `(declare-datatypes ((Slice 0)) (((mkslice (sl.base Int) (sl.off
 (declare-fun bshr (Int Int) Int)
 (declare-fun pow2 (Int) Int)
 `
+
+const preludeFaAxiom = "(assert (forall ((f! Int) (o! Int)) (! (and (= (fa.obj (fa f! o!)) o!) (= (fa.fld (fa f! o!)) f!) (< (fa f! o!) 0)) :pattern ((fa f! o!)))))\n"
 
 // intRange returns (lo, hi) inclusive bounds for a Go integer basic type, ok=false when not an integer.
 func intRange(t types.Type) (lo, hi *big.Int, ok bool) {
